@@ -134,13 +134,15 @@ def run(ctx, res):
                          np.asarray(want).tolist()[:40], got[:40], note=f"maxdiff={C.maxdiff(got, want)}")
 
     # ---- recorded update histories -------------------------------------------------
-    n_hist = 6 if not ctx["thorough"] else 60
+    n_hist = 10 if not ctx["thorough"] else 60
     hl, hc = [], []
     for h in range(n_hist):
         n = int(rng.integers(4, 24 if not ctx["thorough"] else 120))
         chi = float(rng.choice([0.0, 0.3, 0.6, 0.9]))
         phase, fabric = impl.PHASE_FABRICS[h % len(impl.PHASE_FABRICS)]
-        A0, f0 = impl.initial_texture(impl.TEX_KINDS[h % len(impl.TEX_KINDS)], rng, n)
+        A0, f0 = impl.initial_texture(impl.TEX_KINDS[h % len(impl.TEX_KINDS)] if h < 4 or h % 6 < 2 else "nonuniform", rng, n)
+        if h >= 4 and h % 6 >= 2:
+            chi = float(rng.choice([0.3, 0.6, 0.9]))      # the variants below need grains under the threshold
         m = M.Mineral(phase=phase, fabric=fabric, regime=impl._core.DeformationRegime.matrix_dislocation,
                       n_grains=n, fractions_init=f0.copy(), orientations_init=A0.copy())
         L = impl.make_L(impl.L_KINDS[h % len(impl.L_KINDS)], rng)
@@ -149,10 +151,25 @@ def run(ctx, res):
         F = np.eye(3)
         n_upd = int(rng.integers(1, 4))
         ts = np.linspace(0, rng.uniform(0.3, 1.0), n_upd + 1)
+        # the floor applies to every update, whatever the time direction and whichever way the regime is declared
+        variant = ["plain", "plain", "reversed_time", "regime_callable_null", "far_time_origin", "regime_callable_switch"][h % 6] if h >= 4 else "plain"
+        get_regime = None
+        if variant == "reversed_time":
+            ts = ts[::-1].copy()
+        elif variant == "far_time_origin":
+            ts = ts + float(rng.choice([5e3, -1e6]))
+        elif variant == "regime_callable_null":
+            r_ = impl._core.DeformationRegime(int(rng.choice([0, 1, 7])))
+            get_regime = lambda t, x, r_=r_: r_  # noqa: E731
+        elif variant == "regime_callable_switch":
+            tm = float(ts[0] + 0.6 * (ts[1] - ts[0]))
+            r_ = impl._core.DeformationRegime(int(rng.choice([0, 7])))
+            get_regime = lambda t, x, r_=r_, tm=tm: impl._core.DeformationRegime.matrix_dislocation if t < tm else r_  # noqa: E731
+        res.count("history:variant:" + variant)
         for u in range(n_upd):
             start_A = m.orientations[-1].copy()
             with impl.Recorder() as rec:
-                F = m.update_orientations(params, F, lambda t, x: L, (ts[u], ts[u + 1], lambda t: np.zeros(3)))
+                F = m.update_orientations(params, F, lambda t, x: L, (ts[u], ts[u + 1], lambda t: np.zeros(3)), get_regime=get_regime)
             r = rec.updates[0]
             res.evaluations += 1
             res.count(f"history:chi={chi}")
